@@ -65,7 +65,10 @@ def xiseven_odd(number, odd=False):
         return number
     if number is sh.EMPTY:
         number = 0
-    v = int(_text2num(number)) % 2
+    try:
+        v = int(_text2num(number)) % 2
+    except ValueError:  # A text that is not a number.
+        return Error.errors['#VALUE!']
     return v != 0 if odd else v == 0
 
 
@@ -73,7 +76,9 @@ FUNCTIONS['ISODD'] = wrap_ranges_func(functools.partial(xiseven_odd, odd=True))
 FUNCTIONS['ISEVEN'] = wrap_ranges_func(xiseven_odd)
 FUNCTIONS['ISERROR'] = wrap_ranges_func(iserror)
 FUNCTIONS['ISNUMBER'] = wrap_ranges_func(functools.partial(
-    iserror, check=lambda x: is_number(x, xl_return=False), array=FalseArray
+    iserror, array=FalseArray, check=lambda x: not isinstance(
+        x, str
+    ) and is_number(x, xl_return=False)
 ))
 FUNCTIONS['ISBLANK'] = wrap_ranges_func(functools.partial(
     iserror, check=lambda x: x is sh.EMPTY, array=FalseArray
